@@ -480,6 +480,40 @@ func wTimed(f func() error) (r wOpResult) {
 	return
 }
 
+// harnessC03midline: the plugin dies while it is writing its handshake line - after the address field: inside the
+// protocol field, or before the multiplexing field the host asked for. The host gets an error, and the failure is
+// final: no later call on that client reports a started plugin.
+func harnessC03midline() {
+	var o wOpts
+	o.allowed = 1
+	o.cmd = vChoice(2) == 1
+	o.oldLine = 1
+	cut := vChoice(3)
+	o.mux = cut == 2
+	w := wSetup(o)
+	part := "1|1|unix|/tmp/old-plugin|gr" // dies inside the protocol field
+	switch cut {
+	case 1:
+		part = "1|1|unix|/tmp/old-plugin|" // dies right after the address field's separator
+	case 2:
+		part = "1|1|unix|/tmp/old-plugin|grpc|" // dies before the multiplexing field
+	}
+	w.p.main = func() { mPrintf("%s", part) } // no newline: the process exits, the partial line is what the host reads
+	r := wTimed(func() error { _, err := w.c.Start(); return err })
+	vAssert(!r.panicked && r.err != nil, "C03: a plugin that dies inside its handshake line is a start error")
+	vAssert(r.took <= 61*sec, "C03: ... within the start timeout")
+	_, err2 := w.c.Start()
+	vAssert(err2 != nil, "C03: the failure is final: a second Start does not report a started plugin")
+	vAssert(w.c.Protocol() == ProtocolInvalid, "C03: no protocol is reported for a plugin that died in its handshake")
+	vAssert(w.c.ReattachConfig() == nil, "C03: no reattach record for a plugin that died in its handshake")
+	_, err3 := w.c.Client()
+	vAssert(err3 != nil, "C03: no protocol client for a plugin that died in its handshake")
+	w.c.Kill()
+	vAssert(w.p.isDead, "C05: the process is gone")
+	vCover("died-mid-line")
+	vDone()
+}
+
 func harnessC03() {
 	var o wOpts
 	o.grpc = vChoice(2) == 1
